@@ -215,8 +215,21 @@ def cli_cases(arg):
             root = os.path.join(sc.root, "g%d" % gi)
             sentinel = os.path.join(sc.root, "ran%d" % gi)
             graph = dict(graph, run="echo x >> %s" % sentinel)
-            build(root, graph)
             deps, defined = canon(graph)
+            if gi % 2 == 1 and any(analyse(deps, defined, t) for t in defined):
+                # the project was sound and has been run before (cached experiments exist); THEN the COND
+                # files are edited so that a cycle / dangling / duplicate dependency appears
+                healed = dict(graph, kinds={str(i): "run_experiment" for i in range(len(graph["nodes"]))}, alias=False,
+                              deps={i: sorted({j for j in graph["deps"][i] if j != "G" and j < i}) for i in range(len(graph["nodes"]))})
+                build(root, healed)
+                for target in sorted(defined)[:2]:
+                    cli.run_cli(["run", target], root, sc.root, timeout=60)
+                if os.path.exists(sentinel):
+                    os.unlink(sentinel)
+                graph = dict(graph, kinds=healed["kinds"])
+                out["reach"]["c14_cli_edited_after_run"] = out["reach"].get("c14_cli_edited_after_run", 0) + 1
+            build(root, graph)
+            made_before = {os.path.join(p, x) for p, d, f in os.walk(os.path.join(root, "cond-out")) for x in d if ".task" in x}
             for target in sorted(defined)[:2]:
                 app = analyse(deps, defined, target)
                 for check in (True, False):
@@ -240,7 +253,7 @@ def cli_cases(arg):
                         elif "ERROR:" not in r.err or not (said & app):
                             out["violations"].append({"key": "C14:wrong-error-kind", "msg": "cond run %s: applicable %s, stderr: %s" % (target, sorted(app), r.err[-300:]), "witness": W})
                         ran = os.path.exists(sentinel)
-                        made = [p for p, d, f in os.walk(os.path.join(root, "cond-out")) for x in d if ".task" in x]
+                        made = sorted({os.path.join(p, x) for p, d, f in os.walk(os.path.join(root, "cond-out")) for x in d if ".task" in x} - made_before)
                         out["reach"]["c14_nothing_ran_checks"] = out["reach"].get("c14_nothing_ran_checks", 0) + 1
                         if ran or made:
                             out["violations"].append({"key": "C14:task-executed-despite-graph-error", "msg": "cond run %s reported a graph error but a task ran / an output directory was created (%s)" % (target, made), "witness": W})
@@ -355,6 +368,19 @@ def random_graphs(rng, count):
         n = rng.randint(2, 9)
         pk = rng.sample(["", "a", "a/b", "c", "d-e"], rng.randint(1, 4))
         nodes = [(rng.choice(pk), "n%d" % i) for i in range(n)]
+        if len(pk) > 1 and rng.random() < 0.4:
+            # the same task NAME in several packages (identifiers stay unique): relative spellings coincide
+            pool = ["n%d" % j for j in range(max(2, n // 2))]
+            nodes, used = [], set()
+            for i in range(n):
+                for _ in range(20):
+                    cand = (rng.choice(pk), rng.choice(pool))
+                    if cand not in used:
+                        break
+                else:
+                    cand = (rng.choice(pk), "u%d" % i)
+                used.add(cand)
+                nodes.append(cand)
         mode = rng.choice(["dag", "dag", "any", "dup", "ghost", "ghostdir"])
         deps = {}
         for i in range(n):
